@@ -445,9 +445,11 @@ class Interp:
             r = self.on_call(self, name, f, args, kwargs)
             if r is not NotImplemented:
                 return r
-        if len(args) >= 2 and isinstance(args[1], K) and \
-                isinstance(args[0], (RegexV, K)):
-            # a constant pattern applied to a constant subject is computed
+        if len(args) >= 2 and (isinstance(args[1], K) and
+                               isinstance(args[0], (RegexV, K)) or
+                               isinstance(args[0], T)):
+            # a constant pattern applied to a constant subject is computed;
+            # a pattern that is data forks on matched / not / re.error
             from . import rxmodel
             if name in rxmodel.MODES:
                 r = rxmodel.on_call(self, name, f, args, kwargs)
